@@ -68,6 +68,7 @@ REDUCERS = ['_checks:AndCheck.add_check', '_checks:OrCheck.add_check', '_checks:
 
 PROPS['C01'] = Prop(
     functions=CONNECTIVES + REDUCERS,
+    lemmas=[('contracts.parser_table', 'reducer_table')],
     bounded=[('bounded.lang', 'c01')],
     level='other',
     technique='contract-based deductive verification of the evaluation side (own VC generator + z3); the parser side is a labelled bounded stand-in',
@@ -85,6 +86,7 @@ PROPS['C01'] = Prop(
 
 PROPS['C02'] = Prop(
     functions=['_parser:_parse_check', '_parser:ParseState.result'],
+    lemmas=[('contracts.parser_table', 'reducer_table')],
     bounded=[('bounded.lang', 'c02')],
     level='other',
     technique='contract-based deductive verification of the single-check parser and of the parse-result test (own VC generator + z3); the tokenizer, the driver and the list form by a labelled bounded stand-in',
@@ -101,6 +103,7 @@ PROPS['C02'] = Prop(
 
 PROPS['C15'] = Prop(
     functions=PRINTERS + ['policy:RuleDefault.__eq__', '_parser:_parse_check'],
+    lemmas=[('contracts.parser_table', 'reducer_table')],
     bounded=[('bounded.lang', 'c15')],
     level='other',
     technique='contract-based deductive verification of the printers (own VC generator + z3); the round trip through the parser is a labelled bounded stand-in',
@@ -132,7 +135,8 @@ PROPS['C03'] = Prop(
 
 PROPS['C06'] = Prop(
     functions=['_checks:RuleCheck.__call__', '_checks:_check', 'policy:Rules.__missing__', '_checks:NotCheck.__call__',
-               '_checks:AndCheck.__call__', '_checks:OrCheck.__call__'],
+               '_checks:AndCheck.__call__', '_checks:OrCheck.__call__', '_checks:AndCheck.add_check', '_checks:OrCheck.add_check',
+               '_checks:OrCheck.pop_check', '_parser:ParseState._mix_or_and_expr', '_parser:ParseState._wrap_check'],
     bounded=[('bounded.enforce', 'c06')],
     level='other',
     technique='contract-based deductive verification (own VC generator + z3) of the reference check and the pass-through of current_rule; bounded stand-in for whole-rule-set transparency',
